@@ -8,6 +8,7 @@
   (master trace of the whole-core simulator joined with GetTasks snapshots), see Driver/C18.lean.
 -/
 import ControlModel.Model.Reconcile
+import ControlModel.Model.Resubscribe
 import ControlModel.Gen.C18Facts
 
 namespace Spec.C18
@@ -64,6 +65,48 @@ def orphansKilledEachRound : List Out → Bool
      | .snap l os => os.all (fun t => (sinceReconcile l older).any (isReconKill l t))
      | _ => true) && orphansKilledEachRound older
 
+/-- The part of a log (newest first) that is NEWER than the most recent SUBSCRIBE call of life `l`
+    (the whole log if there is none). -/
+def sinceSubscribe (l : Nat) : List Out → List Out
+  | [] => []
+  | o :: older =>
+    match o with
+    | .subscribe l' _ => if l' == l then [] else o :: sinceSubscribe l older
+    | _ => o :: sinceSubscribe l older
+
+/-- Orphans killed, per SUBSCRIPTION: whenever the system is quiescent in life `l`, every task of an earlier
+    life that the master reports alive has received a KILL from life `l` that is NEWER than the most recent
+    SUBSCRIBE of that life: after every re-subscription — a life has as many as the master connection is dropped
+    and re-established — whatever the master reports alive and the core does not own is looked for and killed
+    AGAIN. What an earlier subscription of the same life found, or asked for, does not count: a task the first
+    answer left out (its agent had not re-registered, the request was lost) and a later subscription's answer
+    shows is killed then. A core that reconciles after the first SUBSCRIBED of its life only satisfies
+    `orphansKilledEachRound` (its latest RECONCILE is the first one) and not this. -/
+def orphansKilledEachSubscription : List Out → Bool
+  | [] => true
+  | o :: older =>
+    (match o with
+     | .snap l os => os.all (fun t => (sinceSubscribe l older).any (isReconKill l t))
+     | _ => true) && orphansKilledEachSubscription older
+
+/-- Identity kept, on the SUBSCRIBE calls themselves (newest first): every SUBSCRIBE made after a SUBSCRIBED
+    that the core accepted presents the framework id of the LATEST accepted one — in the same life after a
+    reconnection (a core in its first life has nothing persisted when it starts: what it presents is what it
+    was given), and in every later life. -/
+def identityKept : List Sub → Bool
+  | [] => true
+  | x :: older =>
+    (match older.find? (·.accepted) with
+     | some y => x.carry == some y.assigned
+     | none => true) && identityKept older
+
+/-- … and so the core is ONE framework for ever: all accepted subscriptions carry the same assigned id (the
+    tasks of its live environments, launched under an earlier subscription, are tasks of the framework it is
+    subscribed as now). -/
+def oneFramework : List Sub → Bool
+  | [] => true
+  | x :: older => (!x.accepted || older.all (fun y => !y.accepted || y.assigned == x.assigned)) && oneFramework older
+
 /-- Owned spared: no KILL caused by a reconciliation update hits an owned task — one that is locked in the
     roster, or held by a live environment (the `owned` flag of the KILL; the driver derives it from GetTasks AND
     from what GetEnvironments says the environments hold, so a task the roster has lost is still "owned"). -/
@@ -77,8 +120,12 @@ def updatesNeverKill (log : List Out) : Bool :=
 /-- Every SUBSCRIBED is followed by an implicit RECONCILE is not a log property (it needs the events);
     the monitor checks it. The conjunction below is what `specOnImpl` reports. -/
 def all (log : List Out) : Bool :=
-  sameIdentity log && persistedOnce log && orphansKilled log && orphansKilledEachRound log && ownedSpared log &&
-  updatesNeverKill log
+  sameIdentity log && persistedOnce log && orphansKilled log && orphansKilledEachRound log &&
+  orphansKilledEachSubscription log && ownedSpared log && updatesNeverKill log
+
+/-- … together with the SUBSCRIBE/SUBSCRIBED pairs: what `specOnImpl` reports. -/
+def allR (log : List Out) (subs : List Sub) : Bool :=
+  all log && identityKept subs && oneFramework subs
 
 /-! ## the configuration the code has NOW (from the regenerated go/ast facts) -/
 
@@ -92,11 +139,17 @@ def stateOfName : String → Option MState
 
 /-- `Reconcile.Cfg` read off Gen/C18Facts.lean. `Props/C18.lean` proves it is one of the two configurations
     the theorems are about (`C18_cfg_is_code`); the driver runs the monitor with it, so the correspondence
-    check follows the code when notes/C18.fix.patch is applied. -/
+    check follows the code when notes/C18.fix.patch is applied.
+    Two facts are deliberately NOT folded into a field (they are tied by theorems of their own, which stop
+    building when the fact changes — `C18_reconcile_on_subscribed_is_code`, `C18_fid_store_is_code` — and have no
+    faithful image in `Cfg`): `reconcileOnEverySubscribed` ("on the first SUBSCRIBED only" is not "never") and
+    `fidStoreFeedsSubscribe` ("the id read once when the controller starts" is not "no id"). Mapping them to
+    `reconcileOnSubscribed := false` / `failover := false` would make the monitor's model differ from such a core on
+    EVERY history, also where both behave alike; left out, the model differs exactly where the code does. -/
 def codeCfg : Cfg :=
   { seedFid := Gen.C18.fidSeededFromRuntimeEntry && Gen.C18.fidRuntimeKey == "aliecs/mesos_fid" && Gen.C18.rosterFreshPerLife
     persistFid := Gen.C18.fidWrittenBackToRuntimeEntry
-    failover := Gen.C18.failoverTimeoutSet && Gen.C18.failoverDefaultPositive && Gen.C18.fidStoreFeedsSubscribe
+    failover := Gen.C18.failoverTimeoutSet && Gen.C18.failoverDefaultPositive
     reconcileOnSubscribed := Gen.C18.reconcileOnSubscribed && Gen.C18.reconcileIsImplicit && Gen.C18.trackSubscriptionBeforeReconcile
     reasonGuard := (Gen.C18.killGuard == "reason+state" || Gen.C18.killGuard == "reason+state+notInRoster") &&
                    Gen.C18.killReason == "REASON_RECONCILIATION" && Gen.C18.killCallsInHandleMessage == 1 && Gen.C18.elseUpdatesStatus
